@@ -19,8 +19,8 @@ def suite(wt):
     lines = [l.split(" finished")[0] for l in out.splitlines() if l.startswith("test result")]
     return lines, out
 
-def confirm(prop, n, wt):
-    sid = f"{prop}-m{n}"
+def confirm(prop, n, wt, tag="m"):
+    sid = f"{prop}-{tag}{n}"
     dst = os.path.join(VERIF, "seeded", sid)
     os.makedirs(dst, exist_ok=True)
     diff = os.path.join(wt, f"mutation{n}.diff")
@@ -94,6 +94,6 @@ def detect(sid, checks):
 
 if __name__ == "__main__":
     if sys.argv[1] == "confirm":
-        confirm(sys.argv[2], int(sys.argv[3]), sys.argv[4])
+        confirm(sys.argv[2], int(sys.argv[3]), sys.argv[4], sys.argv[5] if len(sys.argv) > 5 else "m")
     elif sys.argv[1] == "detect":
         detect(sys.argv[2], sys.argv[3:])
